@@ -37,7 +37,11 @@ def strip_generics(path):
 class Facts:
     def __init__(self, path):
         with open(path) as f:
-            self.raw = json.load(f)
+            text = f.read()
+        # no_std builds print `core::` / `alloc::` where std builds print the `std::` re-export:
+        # one spelling for the rules (crate-local paths never start with these crate names)
+        text = re.sub(r'\b(core|alloc)::', 'std::', text)
+        self.raw = json.loads(text)
         self.path = path
         self.features = self.raw['features']
         self.adts = {a['path']: a for a in self.raw['adts']}
